@@ -1160,6 +1160,9 @@ def gen_survey(rng: random.Random, tier: str):
             if op["op"] == "batch" and inp["kind"] == "B":
                 continue
             yield {"input": inp, "other": other, "ops": [op]}
+            if op["op"] in ("split", "splitl", "splitws", "tsplitn", "tsplitl", "chunk") and inp["kind"] == "B":
+                # samples holding SEVERAL images / flow fields each (pieces of different sizes) collated again
+                yield {"input": inp, "other": other, "ops": [op, {"op": "collate"}]}
             if op["op"] == "iter":
                 yield {"input": inp, "other": other, "ops": [op, {"op": "fromimages"}]}
                 yield {"input": inp, "other": other, "ops": [op, {"op": "collate"}]}
